@@ -122,9 +122,14 @@ func (unspentOutputs *OutputSet) RemoveByHash(hash [32]byte, index uint32) {
 	}
 }
 
-// RemoveByHash removes an unspent output from the OutputSet matching the
-// given TXID and output index.
+// RemoveByTxid removes an unspent output from the OutputSet matching the
+// given TXID and output index. A string which is not a 64-character TXID
+// identifies no output, as in GetByTxid.
 func (unspentOutputs *OutputSet) RemoveByTxid(txid string, index uint32) {
+	if len(txid) != 64 {
+		return
+	}
+
 	if unspentOutputs.byOutpoint != nil {
 		txidBytes, err := hex.DecodeString(txid)
 		if err != nil {
